@@ -10,6 +10,8 @@ func AllRules() []*Rule {
 	rs = append(rs, drvRules()...)
 	rs = append(rs, cmpRules()...)
 	rs = append(rs, fmtRules()...)
+	rs = append(rs, travRules()...)
+	rs = append(rs, miscRules()...)
 	return rs
 }
 
@@ -79,5 +81,35 @@ func init() {
 	Props["C14"] = PropInfo{
 		Explanation: "REC-table evaluates one generic iteration of parseRecord under each serial type 0..13 (path enumeration with the type assumed) and checks guard = bytes decoded = body advance = fileformat2 §2.1 and the sign-extension width; SIGN checks the 24/48-bit readers' shifts, mask and subtrahend; VARINT extracts the loop-body table of readVarint (7 bits for bytes 1..8, 8 bits for the 9th, precedence of the 9th-byte test, count, short input); FMT-spill compares the X/M/K formulas and the three-way choice with the spec after SSA removed naming (canonical expression trees); FMT-overflow checks the overflow page layout and that whole pages are appended.",
 		NotDecided:  "That multi-page chains concatenate correctly for concrete files, and the numeric value of each decode beyond width/sign structure.",
+	}
+}
+
+func init() {
+	Props["C04"] = PropInfo{
+		Explanation: "SRCH: the predicates handed to sort.Search in the table leaf and interior pages, evaluated over Order(cell key, rowid), give (F,T,T) on the right field (first cell with key ≥ rowid — the file format's meaning of an interior key), the match test gives (F,T,F) and always stops; TRAV: the interior descent continues with the following children and the right-most child, the leaf delivers only the first qualifying cell; VARINT: rowid varints incl. the 9-byte negative form; DONE/ERR rules via their own ids.",
+		NotDecided:  "That interior keys on disk are ordered (a property of the input) and concrete lookups on real trees.",
+	}
+	Props["C13"] = PropInfo{
+		Explanation: "TRAV/TRAV-flag: shape of indexLeaf.IterMin and indexInterior.IterMin (search, then tail iteration; child before the cell's own entry; first child searched, later children and the right-most scanned); SRCH: the binary-search predicate is Search(key, record of that cell), key first, with the probe error latched; CMP-search/CMP-matrix: the comparison tables; RANGE: the cut-off tables of ScanEq/ScanRange/ScanMin.",
+		NotDecided:  "That the search lands on the right cell in real trees.",
+	}
+}
+
+func init() {
+	Props["C01"] = PropInfo{
+		Explanation: "TRAV: the table b-tree iteration methods consume every cell's child in order, then the right-most child, and leaves emit every cell; FMT-spill/FMT-overflow/REC-table: payload split, overflow layout and record decoding agree with the file format; ROWMAP: toRow's three cases (rowid / DEFAULT for short records / record[rowIndex]) and the rowid-alias decision of toColumnIndexRowid; ROWIDALIAS: which column aliases the rowid; ERR-1/2: a definition that cannot be interpreted surfaces as an error before any scan.",
+		NotDecided:  "That decoded values, storage classes and order equal SQLite's on real files; the WITHOUT ROWID column store order (a permutation computed from names).",
+	}
+	Props["C02"] = PropInfo{
+		Explanation: "TRAV/TRAV-flag: index b-tree traversals emit left child, then the interior entry, then the right-most child, every cell; SKIP-1/SKIP-2/ERR: every index entry reaches the row callback or an error, never a stale or skipped row; CHOMP: the rowid is the last index field and the adapters look up and deliver the table row, WITHOUT ROWID lookups typed by the table's PK; IDXCOL: per-column collations; FMT-spill for index cells.",
+		NotDecided:  "Partial-index membership, expression columns, tie order, collation order on real data (C11's tables cover the comparator).",
+	}
+	Props["C03"] = PropInfo{
+		Explanation: "KEY: asDbKey carries index column i's direction and validated collation to key column i and maps every documented Go type to a storage type; RANGE: ScanEq searches and filters with the same key and stops at the first unequal record; PKSEL: the primary-key dispatch table; IDXCOL: collation of index columns; CMP-matrix/CMP-search: the comparison tables; SRCH/TRAV/DONE-0: the binary search and the descent it starts.",
+		NotDecided:  "That the binary search finds the first equal entry on real trees; PK/index resolution against SQLite's catalogue (C10).",
+	}
+	Props["C10"] = PropInfo{
+		Explanation: "GRAM: every grammar value the parser reports is defined by the element's own production; ROWIDALIAS: the rowid-alias decision table and its call sites; IDXCOL: collation inheritance with a case-insensitive column lookup; SCHEMA-err via ERR-1/2 exceptions (unparseable table ⇒ error, unparseable index ⇒ omitted); AUTOIDX: the automatic-index counter advances only when an index was added (rowid tables).",
+		NotDecided:  "Automatic-index de-duplication and appended key columns beyond the counter discipline — SQLite catalogue rules implemented as name arithmetic.",
 	}
 }
